@@ -708,6 +708,39 @@ pub fn run_history_on<W: Write + CallTag>(
     Run { build: s.build, results: s.results, out: sink.bytes.clone(), sink, panic: s.panic, finished_at: s.finished_at, stats: s.stats }
 }
 
+/// The muxer is built and fed the first `cut` calls on this thread, then MOVED to a new thread which makes the remaining calls
+/// (a muxer over a `Send` sink may change threads between any two calls).
+pub fn run_moved(cfg: &CCfg, ops: &[COp], cut: usize) -> Run {
+    let sink = RecSink::new();
+    sink.set_call(usize::MAX);
+    let mut s = Session::new(sink.clone(), cfg);
+    let cut = cut.min(ops.len());
+    for (i, op) in ops.iter().enumerate().take(cut) {
+        if s.live() {
+            sink.set_call(i);
+        }
+        s.step(op);
+    }
+    let rest: Vec<COp> = ops[cut..].to_vec();
+    let sink2 = sink.clone();
+    let s = std::thread::spawn(move || {
+        for (j, op) in rest.iter().enumerate() {
+            if s.live() {
+                sink2.set_call(cut + j);
+            }
+            s.step(op);
+        }
+        sink2.set_call(usize::MAX - 1);
+        s.close();
+        s
+    })
+    .join()
+    .expect("worker thread of run_moved");
+    let st = sink.0.lock().unwrap();
+    let state = SinkState { bytes: st.bytes.clone(), writes: st.writes.clone(), flushes: st.flushes.clone(), current_call: st.current_call };
+    Run { build: s.build, results: s.results, out: state.bytes.clone(), sink: state, panic: s.panic, finished_at: s.finished_at, stats: s.stats }
+}
+
 /// Several histories on one thread, one call at a time in the order given by `schedule` (indices into `runs`; a history whose
 /// calls are used up is skipped; after the schedule the remaining calls run history by history).
 pub fn run_lockstep(runs: &[(&CCfg, &[COp])], schedule: &[u8]) -> Vec<Run> {
